@@ -409,3 +409,115 @@ Proof.
   { pose proof (N.mul_succ_div_gt (c * num) den). lia. }
   nia.
 Qed.
+
+(** ------------------------------------------------------------------ C14: only the container's own allocator family *)
+(** Every block that an array operation adds to the ledger carries the array's tag; releases are checked
+    by the ledger itself (a release through the other family is [Fault BadFree], and no step faults). *)
+Definition only_own_tag (mem : tag) (al al' : alloc_st) : Prop :=
+  forall b, In b (live al') -> In b (live al) \/ b_tag b = mem.
+
+Lemma only_own_refl mem al : only_own_tag mem al al.
+Proof. intros b Hb; left; assumption. Qed.
+Lemma only_own_trans mem a1 a2 a3 : only_own_tag mem a1 a2 -> only_own_tag mem a2 a3 -> only_own_tag mem a1 a3.
+Proof. intros H1 H2 b Hb. destruct (H2 b Hb) as [H|H]; [apply H1; assumption|right; assumption]. Qed.
+
+Lemma expand_tags a al st a' al' : arr_expand a al = Ok (st, a', al') -> only_own_tag (a_mem a) al al' /\ a_mem a' = a_mem a.
+Proof.
+  unfold arr_expand. destruct (g_array_expand_at_max (a_cap a)); [intros H; inversion H; subst; split; [apply only_own_refl|reflexivity]|].
+  set (new := if g_array_expand_overflow _ _ then _ else _).
+  destruct (alloc (a_mem a) (wmul new 8) al) as [[b|] a1] eqn:Ea.
+  - destruct (wmul new 8 / 8 <? a_size a); [discriminate|].
+    destruct (release (a_mem a) (a_blk a) a1) as [a2|] eqn:Er; cbn [bind]; [|discriminate].
+    intros H; inversion H; subst. split; [|reflexivity].
+    intros x Hx. apply (release_incl _ _ _ _ Er) in Hx. eapply alloc_new_tag; eauto.
+  - intros H; inversion H; subst. split; [|reflexivity]. intros x Hx. eapply alloc_new_tag; eauto.
+Qed.
+
+Lemma add_tags a x al st a' al' : arr_add a x al = Ok (st, a', al') -> only_own_tag (a_mem a) al al' /\ a_mem a' = a_mem a.
+Proof.
+  unfold arr_add. destruct (g_array_add_full _ _).
+  - destruct (arr_expand a al) as [[[st1 a1] al1]|] eqn:Ee; cbn [bind]; [|discriminate].
+    destruct (expand_tags _ _ _ _ _ Ee) as [Ht Hm].
+    destruct st1; [|intros H; inversion H; subst; auto ..].
+    destruct (write_ok a1 (a_size a1)); [|discriminate]. intros H; inversion H; subst. auto.
+  - cbn [bind]. destruct (write_ok a (a_size a)); [|discriminate]. intros H; inversion H; subst. split; [apply only_own_refl|reflexivity].
+Qed.
+
+Lemma add_at_tags a x i al st a' al' : arr_add_at a x i al = Ok (st, a', al') -> only_own_tag (a_mem a) al al' /\ a_mem a' = a_mem a.
+Proof.
+  unfold arr_add_at. destruct (g_array_add_at_append _ _); [apply add_tags|].
+  destruct (g_array_add_at_range _ _); [intros H; inversion H; subst; split; [apply only_own_refl|reflexivity]|].
+  destruct (g_array_add_at_full _ _).
+  - destruct (arr_expand a al) as [[[st1 a1] al1]|] eqn:Ee; cbn [bind]; [|discriminate].
+    destruct (expand_tags _ _ _ _ _ Ee) as [Ht Hm].
+    destruct st1; [|intros H; inversion H; subst; auto ..].
+    destruct (write_ok a1 (a_size a1)); [|discriminate]. intros H; inversion H; subst. auto.
+  - cbn [bind]. destruct (write_ok a (a_size a)); [|discriminate]. intros H; inversion H; subst. split; [apply only_own_refl|reflexivity].
+Qed.
+
+Lemma trim_tags a al st a' al' : arr_trim a al = Ok (st, a', al') -> only_own_tag (a_mem a) al al' /\ a_mem a' = a_mem a.
+Proof.
+  unfold arr_trim. destruct (g_array_trim_noop _ _); [intros H; inversion H; subst; split; [apply only_own_refl|reflexivity]|].
+  set (size := if a_size a <? 1 then 1 else a_size a).
+  destruct (alloc (a_mem a) (wmul size 8) al) as [[b|] a1] eqn:Ea.
+  - destruct (release (a_mem a) (a_blk a) a1) as [a2|] eqn:Er; cbn [bind]; [|discriminate].
+    intros H; inversion H; subst. split; [|reflexivity].
+    intros x Hx. apply (release_incl _ _ _ _ Er) in Hx. eapply alloc_new_tag; eauto.
+  - intros H; inversion H; subst. split; [|reflexivity]. intros x Hx. eapply alloc_new_tag; eauto.
+Qed.
+
+Theorem arr_step_tags pred a o al out a' al' :
+  arr_step pred a o al = Ok (out, a', al') -> only_own_tag (a_mem a) al al' /\ a_mem a' = a_mem a.
+Proof.
+  destruct o; cbn [arr_step].
+  - destruct (arr_add a x al) as [[[st a1] al1]|] eqn:E; cbn [bind]; [|discriminate]. intros H; inversion H; subst. eapply add_tags; eauto.
+  - destruct (arr_add_at a x i al) as [[[st a1] al1]|] eqn:E; cbn [bind]; [|discriminate]. intros H; inversion H; subst. eapply add_at_tags; eauto.
+  - destruct (arr_replace_at a x i) as [[st v] a1] eqn:E. intros H; inversion H; subst. split; [apply only_own_refl|].
+    unfold arr_replace_at in E. destruct (g_array_replace_at_range _ _); [inversion E; reflexivity|].
+    destruct (getN _ _); [destruct (updN _ _ _)|]; inversion E; reflexivity.
+  - destruct (arr_swap_at a i j) as [st a1] eqn:E. intros H; inversion H; subst. split; [apply only_own_refl|].
+    unfold arr_swap_at in E. destruct (g_array_swap_at_range _ _ _); [inversion E; reflexivity|].
+    destruct (getN (a_data a) i); [destruct (getN (a_data a) j); [destruct (updN _ _ _) as [d1|]; [destruct (updN d1 _ _)|]|]|]; inversion E; reflexivity.
+  - destruct (arr_remove a x) as [[st v] a1] eqn:E. intros H; inversion H; subst. split; [apply only_own_refl|].
+    unfold arr_remove in E. destruct (index_ofN _ _); inversion E; reflexivity.
+  - destruct (arr_remove_at a i) as [[st v] a1] eqn:E. intros H; inversion H; subst. split; [apply only_own_refl|].
+    unfold arr_remove_at in E. destruct (g_array_remove_at_range _ _); [inversion E; reflexivity|]. destruct (getN _ _); inversion E; reflexivity.
+  - destruct (arr_remove_last a) as [[st v] a1] eqn:E. intros H; inversion H; subst. split; [apply only_own_refl|].
+    unfold arr_remove_last, arr_remove_at in E. destruct (g_array_remove_at_range _ _); [inversion E; reflexivity|]. destruct (getN _ _); inversion E; reflexivity.
+  - intros H; inversion H; subst. split; [apply only_own_refl|reflexivity].
+  - destruct (arr_get_at a i) as [st v]. intros H; inversion H; subst. split; [apply only_own_refl|reflexivity].
+  - destruct (arr_get_last a) as [st v]. intros H; inversion H; subst. split; [apply only_own_refl|reflexivity].
+  - destruct (arr_index_of a x) as [st v]. intros H; inversion H; subst. split; [apply only_own_refl|reflexivity].
+  - intros H; inversion H; subst. split; [apply only_own_refl|reflexivity].
+  - destruct (arr_reverse a) as [a1|] eqn:E; cbn [bind]; [|discriminate]. intros H; inversion H; subst. split; [apply only_own_refl|].
+    unfold arr_reverse in E. destruct (g_array_reverse_empty _); [inversion E; reflexivity|]. destruct (rev_loop _ _ _ _ _); inversion E; reflexivity.
+  - destruct (arr_filter_mut pred a) as [st a1] eqn:E. intros H; inversion H; subst. split; [apply only_own_refl|].
+    unfold arr_filter_mut in E. destruct (g_array_filter_mut_empty _); [inversion E; reflexivity|].
+    destruct (fm_loop _ _ _ _ _ _) as [[[d sz] rm] keep]. destruct (0 <? rm); inversion E; reflexivity.
+  - destruct (arr_trim a al) as [[[st a1] al1]|] eqn:E; cbn [bind]; [|discriminate]. intros H; inversion H; subst. eapply trim_tags; eauto.
+  - intros H; inversion H; subst. split; [apply only_own_refl|reflexivity].
+Qed.
+
+Theorem arr_run_tags pred ops : forall a al outs a' al',
+  arr_run pred a ops al = Ok (outs, a', al') -> only_own_tag (a_mem a) al al' /\ a_mem a' = a_mem a.
+Proof.
+  induction ops as [|o t IH]; intros a al outs a' al'; cbn [arr_run].
+  - intros H; inversion H; subst. split; [apply only_own_refl|reflexivity].
+  - destruct (arr_step pred a o al) as [[[out a1] al1]|] eqn:Es; cbn [bind]; [|discriminate].
+    destruct (arr_run pred a1 t al1) as [[[outs1 a2] al2]|] eqn:Er; cbn [bind]; [|discriminate].
+    intros H; inversion H; subst. destruct (arr_step_tags _ _ _ _ _ _ _ Es) as [T1 M1]. destruct (IH _ _ _ _ _ Er) as [T2 M2].
+    split; [|congruence]. eapply only_own_trans; eauto. rewrite <- M1. exact T2.
+Qed.
+
+Theorem derive_tags a d al st r al' :
+  arr_derive a d al = Ok (st, r, al') -> only_own_tag (a_mem a) al al' /\ (forall b, r = Some b -> a_mem b = a_mem a).
+Proof.
+  unfold arr_derive. destruct (alloc (a_mem a) ARRAY_HDR al) as [[h|] a1] eqn:E1.
+  - destruct (alloc (a_mem a) (wmul (a_cap a) 8) a1) as [[bk|] a2] eqn:E2.
+    + destruct (wmul (a_cap a) 8 / 8 <? lenN d); [discriminate|]. intros H; inversion H; subst. split.
+      * intros x Hx. destruct (alloc_new_tag _ _ _ _ _ E2 x Hx) as [Hy|Hy]; [|right; assumption]. eapply alloc_new_tag; eauto.
+      * intros b Hb; inversion Hb; reflexivity.
+    + destruct (release (a_mem a) h a2) as [a3|] eqn:Er; cbn [bind]; [|discriminate]. intros H; inversion H; subst. split; [|discriminate].
+      intros x Hx. apply (release_incl _ _ _ _ Er) in Hx. destruct (alloc_new_tag _ _ _ _ _ E2 x Hx) as [Hy|Hy]; [|right; assumption]. eapply alloc_new_tag; eauto.
+  - intros H; inversion H; subst. split; [|discriminate]. intros x Hx. eapply alloc_new_tag; eauto.
+Qed.
